@@ -38,9 +38,7 @@ type airRun struct {
 }
 
 func (a *airRun) mon(s string) {
-	if len(a.st.Monitors) < 80 {
-		a.st.Monitors = append(a.st.Monitors, s)
-	}
+	addMonitor(&a.st.Monitors, s)
 }
 
 func (a *airRun) note(s string) {
